@@ -36,7 +36,9 @@ ANGLES = {
     "subclass": "USER SUBCLASS: the break must show only when the user supplies an ordinary subclass of a pams class "
                 "(agent, high-frequency agent, market, event, logger, session) that overrides or extends a documented "
                 "method in a way the documentation invites (calling super(), adding attributes, returning several "
-                "orders / cancels). The bundled classes alone must behave as before.",
+                "orders / cancels). The bundled classes alone must behave as before. The user subclass must KEEP the "
+                "documented meaning of everything it overrides (it may record, count, delegate to super(), add state) - a "
+                "subclass that makes a getter return something else than documented does not count.",
 }
 ORDER = ["interplay", "tolerated", "publicapi", "late", "subclass"]
 
